@@ -15,7 +15,8 @@ EXPLANATION = (
     'main-module keys are shipped and applied only under it (R-MAIN-FLAG); poll maps signalled -> -signal, exited -> '
     'status, only for its own child; the sentinel has a closing finaliser (R-EXITCODE); the worker is started with '
     "`-m` of this copy's module (R-VENDOR). Also decided: the initializer is tested by identity only, never by truth "
-    'value (R-INIT-TRUTH). Not decided: the descriptor table of a live worker.'
+    'value (R-INIT-TRUTH); get_context resolves `method or <default> or "loky"` on every (requested, default) pair '
+    '(R-CTX-NAME). Not decided: the descriptor table of a live worker.'
 )
 
 
@@ -30,4 +31,5 @@ def run(e, R, tier):
         P.r_exitcode,
         P.r_vendor,
         P.r_init_truth,
+        P.r_ctx_name,
     ])
